@@ -518,6 +518,43 @@ theorem open_default_profile (st : Store C I) (m : Option Method) (pass : PassKe
 
 
 
+/-! ### same store key, same pass key -/
+
+theorem resolve_same_key_same_pass (J : C.Inj) (ref : KeyRef) (hne : ref ≠ .unprotected) (pass pass' : PassKey)
+    (sk : Option C.Key) (h : ref.resolve C pass = .ok sk) (h' : ref.resolve C pass' = .ok sk) :
+    pass.str = pass'.str := by
+  cases ref with
+  | unprotected => exact absurd rfl hne
+  | raw =>
+    simp only [KeyRef.resolve] at h h'
+    by_cases e : (!pass.str.isEmpty) = true
+    · by_cases e' : (!pass'.str.isEmpty) = true
+      · rw [if_pos e] at h; rw [if_pos e'] at h'
+        rcases hk : C.rawKey pass.str with _ | k
+        · simp [hk] at h
+        · rcases hk' : C.rawKey pass'.str with _ | k'
+          · simp [hk'] at h'
+          · simp only [hk, Except.ok.injEq] at h
+            simp only [hk', Except.ok.injEq] at h'
+            have : k = k' := by rw [← h'] at h; exact Option.some.inj h
+            subst this
+            exact J.raw_inj _ _ _ hk hk'
+      · rw [if_neg e'] at h'; simp at h'
+    · rw [if_neg e] at h; simp at h
+  | kdf l d =>
+    simp only [KeyRef.resolve] at h h'
+    by_cases e : pass.isSome = true
+    · by_cases e' : pass'.isSome = true
+      · rw [if_pos e] at h; rw [if_pos e'] at h'
+        rcases hs : parseSalt d with er | salt
+        · simp [hs, Except.map] at h
+        · simp only [hs, Except.map, Except.ok.injEq] at h h'
+          have : C.kdf l pass.str salt = C.kdf l pass'.str salt := by rw [← h'] at h; exact Option.some.inj h
+          exact J.kdf_inj _ _ _ _ this
+      · rw [if_neg e'] at h'; simp at h'
+    · rw [if_neg e] at h; simp at h
+
+
 /-! ### a toy instance of the primitives (non-vacuity of `Crypto.Laws`) -/
 
 /-- keys are numbers, a blob remembers the key it was sealed under -/
